@@ -470,7 +470,7 @@ pub fn rand_call(r: &mut Rng, typed: bool) -> Call {
         0..=3 => Call::Ns(rand_value(r)),
         4 => Call::NoNs,
         5..=8 => Call::Name(rand_value(r)),
-        9..=11 => Call::Ver(rand_value(r)),
+        9..=11 => Call::Ver(if r.chance(1, 4) { r.pick(crate::gen::VERSION_VOCABULARY).to_string() } else { rand_value(r) }),
         12 => Call::NoVer,
         13..=15 => Call::Sub(rand_value(r)),
         16 => Call::NoSub,
